@@ -2154,8 +2154,26 @@ BTree_pop(BTree *self, PyObject *args)
     /* No default given.  The only difference in this case is the error
     * message, which depends on whether the tree is empty.
     */
-    if (BTree_length_or_nonzero(self, 1) == 0) /* tree is empty */
-        PyErr_SetString(PyExc_KeyError, "pop(): BTree is empty");
+    {
+        /* Looking at the tree can run code (it may have to be loaded):  not
+         * with the KeyError still pending.
+         */
+        PyObject *exc_type, *exc_value, *exc_tb;
+        int nonempty;
+
+        PyErr_Fetch(&exc_type, &exc_value, &exc_tb);
+        nonempty = BTree_length_or_nonzero(self, 1);
+        if (nonempty > 0)
+            PyErr_Restore(exc_type, exc_value, exc_tb);
+        else
+        {
+            Py_XDECREF(exc_type);
+            Py_XDECREF(exc_value);
+            Py_XDECREF(exc_tb);
+            if (nonempty == 0) /* tree is empty */
+                PyErr_SetString(PyExc_KeyError, "pop(): BTree is empty");
+        }
+    }
     return NULL;
 }
 
